@@ -188,9 +188,11 @@ def main(argv=None):
     outbase = os.environ.get("VERIF_OUT", common.VERIF)
     repdir = os.path.join(outbase, "replays", prop)
     shutil.rmtree(repdir, ignore_errors=True)
-    for key, hits in sorted(known_hits.items()):
-        print("KNOWN-FINDING: property=%s %s -- %s (%d case(s) this run)" % (
-            prop, key, known[key]["what"], len(hits)))
+    for key in sorted(known):
+        hits = known_hits.get(key, [])
+        print("KNOWN-FINDING: property=%s %s -- %s (%s)" % (
+            prop, key, known[key]["what"],
+            "%d case(s) this run" % len(hits) if hits else "listed; not reached by this tier's enumeration"))
     if new:
         os.makedirs(repdir, exist_ok=True)
     seen_keys = {}
